@@ -51,7 +51,7 @@ PROPS = {
         props_v="Props/C11.v",
         corr_v=["Corr/CheckHeap.v"],
         n_quick=30, n_thorough=600,
-        explanation="PARTIAL. Theorems (object-graph model, Model/Heap.v: message structs, slice backing arrays and maps as locations): the copying operations only allocate — every location of the heap the operands live in is unchanged, for every heap and value — hence every snapshot of an operand after the call equals the one before it, and stores into a private result are invisible through a shared operand; a computation that allocates and stores only into its own allocations leaves every earlier snapshot as it was (the discipline of the sorted copies in Equal and flatString). Static tie (translator): the stores made through a receiver or parameter and the calls handing such a value on are extracted from pkg/sbom and pkg/native/serializers on every run (Gen/Locks.v: operand_writes, operand_calls, operand_roots); Writes is defined inductively over these tables and no chain of calls, however long, leads from one of the 32 comparing, hashing, diffing, copying, look-up, traversing, uniting, intersecting and serializing operations to a store through one of its operands, nor from a documented mutator to a store through anything but its receiver. Observed, not proved (aliases through fresh containers, third-party code, reflection are invisible to the table): for every read-only or value-returning public operation (compare, checksum, diff, copy, look-ups, traversals, union, intersect, 7 serializers) the harness records the operands' real object graph by pointer identity before and after the call and the Coq evaluator checks it is the same graph (values order-sensitively, shape, sharing); a race-detector build runs the operations from 16 goroutines on one shared document and compares with sequential results.",
+        explanation="PARTIAL. Theorems (object-graph model, Model/Heap.v: message structs, slice backing arrays and maps as locations): the copying operations only allocate — every location of the heap the operands live in is unchanged, for every heap and value — hence every snapshot of an operand after the call equals the one before it, and stores into a private result are invisible through a shared operand; a computation that allocates and stores only into its own allocations leaves every earlier snapshot as it was (the discipline of the sorted copies in Equal and flatString). Static tie (translator): the stores made through a receiver or parameter and the calls handing such a value on are extracted from pkg/sbom, pkg/native/serializers and pkg/writer on every run (Gen/Locks.v: operand_writes, operand_calls, operand_roots); Writes is defined inductively over these tables and no chain of calls, however long, leads from one of the 32 comparing, hashing, diffing, copying, look-up, traversing, uniting, intersecting and serializing operations to a store through one of its operands, nor from the writer's entry points to a store through the document they are given, nor from a documented mutator to a store through anything but its receiver. Observed, not proved (aliases through fresh containers, third-party code, reflection are invisible to the table): for every read-only or value-returning public operation (compare, checksum, diff, copy, look-ups, traversals, union, intersect, 7 serializers) the harness records the operands' real object graph by pointer identity before and after the call and the Coq evaluator checks it is the same graph (values order-sensitively, shape, sharing); a race-detector build runs the operations from 16 goroutines on one shared document and compares with sequential results.",
         assumptions=["the comparing/hashing/diffing/look-up/traversal/serializing operations are functions of the operand graph in the value models of C07, C13-C16; that their implementation performs no write is what the before/after observation and the race detector decide", "absence of data races for all interleavings is not a theorem: it follows for operations that do not write, which is observed", "the operand-write extractor (harness/cmd/locks/opwrites.go) is syntactic: callees are resolved by name within pkg/sbom and the serializers, locals carry the roots they were initialised from, third-party functions other than sort.*, slices.Sort*/Reverse, copy, delete, clear, proto.Merge/Reset, maps.Copy/DeleteFunc are assumed not to write their arguments"],
     ),
     "C12": dict(
